@@ -148,6 +148,8 @@ def check(c):
     except TypeError:
         both_ok = False
     require(not both_ok, "fidelity:alias-and-name-accepted", "passing both the deprecated alias and the new name must be refused (TypeError)")
+    f_kw = TS.fidelity(state, lib_t, space, bases=["Z" * n], extra_argument=3)      # documented: extra keyword arguments are ignored
+    require(is_plain_float(f_kw) and abs(f_kw - f) <= 1e-12, "fidelity:extra-kwargs", "fidelity changed when ignored keyword arguments were passed")
     f_own = TS.fidelity(state, lib_own, space)
     require(is_plain_float(f_own) and abs(f_own - 1) <= ftol, "fidelity:own-state", f"fidelity against the model's own normalised state is {f_own}, not 1")
     if not dens:
